@@ -314,6 +314,11 @@ pub enum WOp {
     WriterWrite(usize),
     /// root must be a Limit
     SetLimit(usize),
+    /// the raw BufMut protocol in contract: chunk_mut(), fill min(k, chunk) bytes through the safe
+    /// UninitSlice API (write_byte / copy_from_slice / sub-range indexing), advance_mut
+    ChunkWrite(usize),
+    /// out-of-range use of the safe UninitSlice API on chunk_mut(): must panic and write nothing
+    UninitMisuse(u8),
 }
 
 fn src_shape(idx: usize, d: &[u8]) -> Spec {
@@ -388,6 +393,8 @@ fn apply(t: &mut Sink, m: &mut SM, op: &WOp, seq_no: usize, stats: &mut Stats) -
         WOp::Bytes(v, k) => ("put_bytes".into(), vec![*v; *k]),
         WOp::Buf(_, k) => ("put(Buf)".into(), payload(*k, 0x41 + seq_no as u8 * 16)),
         WOp::WriterWrite(k) => ("Writer::write".into(), payload(*k, 0x61 + seq_no as u8 * 16)),
+        WOp::ChunkWrite(k) => ("chunk_mut+advance_mut".into(), payload((*k).max(1), 0x81 + seq_no as u8 * 16)),
+        WOp::UninitMisuse(_) => ("UninitSlice misuse".into(), vec![]),
         WOp::SetLimit(l) => {
             if let (Sink::Limit(lt), SM::Limit(_, ml)) = (&mut *t, &mut *m) {
                 lt.set_limit(*l);
@@ -396,6 +403,75 @@ fn apply(t: &mut Sink, m: &mut SM, op: &WOp, seq_no: usize, stats: &mut Stats) -
             return Ok(true);
         }
     };
+    if let WOp::ChunkWrite(k) = op {
+        let rem0 = m.rem();
+        let r = catch_unwind(AssertUnwindSafe(|| {
+            let c = t.chunk_mut();
+            let cl = c.len();
+            let n = (*k).min(cl);
+            match seq_no % 3 {
+                0 => {
+                    for i in 0..n {
+                        c.write_byte(i, bytes[i]);
+                    }
+                }
+                1 => c[..n].copy_from_slice(&bytes[..n]),
+                _ => {
+                    // two halves through sub-range indexing
+                    let h = n / 2;
+                    c[..h].copy_from_slice(&bytes[..h]);
+                    c[h..n].copy_from_slice(&bytes[h..n]);
+                }
+            }
+            unsafe { t.advance_mut(n) };
+            (cl, n)
+        }));
+        return match r {
+            Ok((cl, n)) => {
+                if cl > rem0 {
+                    return Err(f11("chunk_mut-longer", format!("chunk_mut().len() = {} but remaining_mut() = {}", cl, rem0)));
+                }
+                if cl == 0 && rem0 > 0 {
+                    return Err(f11("chunk_mut-empty", format!("chunk_mut() is empty but remaining_mut() = {}", rem0)));
+                }
+                m.write(&bytes[..n]);
+                Ok(true)
+            }
+            Err(_) => Err(f11("chunk-write:panic", format!("writing {} bytes through chunk_mut() + advance_mut panicked (remaining_mut() = {})", k, rem0))),
+        };
+    }
+    if let WOp::UninitMisuse(mode) = op {
+        stats.expected_panics += 1;
+        let r = catch_unwind(AssertUnwindSafe(|| {
+            let c = t.chunk_mut();
+            let cl = c.len();
+            match mode {
+                0 => c.write_byte(cl, 0x99),
+                1 => {
+                    let src = vec![0x99u8; cl + 1];
+                    c.copy_from_slice(&src)
+                }
+                2 => {
+                    let sub = &mut c[..cl + 1];
+                    sub.write_byte(cl, 0x99)
+                }
+                _ => c[cl..].copy_from_slice(&[0x99]),
+            }
+        }));
+        if r.is_ok() {
+            return Err(f11("uninit-slice:nopanic", format!("out-of-range use of UninitSlice (mode {}) on chunk_mut() did not panic", mode)));
+        }
+        let mut rs = vec![];
+        regions(m, &mut rs);
+        let a = arena();
+        for i in 0..ARENA {
+            let inside = rs.iter().any(|(o, c, _)| i >= *o && i < *o + *c);
+            if !inside && a[i] != GUARD {
+                return Err(f11("uninit-slice:outside", format!("out-of-range use of UninitSlice (mode {}) modified a byte outside every writable region (arena offset {})", mode, i)));
+            }
+        }
+        return Ok(false);
+    }
     let rem = m.rem();
     let fits = bytes.len() <= rem;
     if let SM::Chain(a, _) = m {
@@ -446,7 +522,7 @@ fn apply(t: &mut Sink, m: &mut SM, op: &WOp, seq_no: usize, stats: &mut Stats) -
                 Err(_) => return Err(f12("writer-panic", format!("Writer::write({} bytes) with room for {} panicked", bytes.len(), rem))),
             }
         }
-        WOp::SetLimit(_) => unreachable!(),
+        WOp::SetLimit(_) | WOp::ChunkWrite(_) | WOp::UninitMisuse(_) => unreachable!(),
     };
     if !fits {
         stats.expected_panics += 1;
@@ -599,6 +675,17 @@ fn sized_ops(rem: usize, first: usize, with_writer: bool, lim: Option<usize>, le
         }
         if with_writer {
             v.push(WOp::WriterWrite(k));
+        }
+    }
+    if rem > 0 {
+        for k in [1usize, cap(first), cap(first) + 1] {
+            let op = WOp::ChunkWrite(k);
+            if !v.contains(&op) {
+                v.push(op);
+            }
+        }
+        for mode in 0..4u8 {
+            v.push(WOp::UninitMisuse(mode));
         }
     }
     if let Some(l) = lim {
